@@ -1,2 +1,2 @@
--- stub: replaced by the family's driver
-def main : IO Unit := IO.println "family optim: no driver yet"
+import PrimitivModel.Driver.OptimDrv
+def main : IO Unit := Primitiv.Drv.OptimDrv.main
